@@ -3,6 +3,7 @@ package props
 import (
 	"encoding/json"
 	"fmt"
+	"io"
 	"time"
 
 	"gitee.com/Trisia/gotlcp/dtlcp"
@@ -253,7 +254,7 @@ func (c09) Run(c *Case, src *vs.Src) *Result {
 			}
 		}
 	}
-	var realErr error
+	var realErr, readErr error
 	var peerNote string
 	realDone := false
 	w.Go("real", func() {
@@ -264,6 +265,7 @@ func (c09) Run(c *Case, src *vs.Src) *Result {
 			for i := 0; i < 100000; i++ {
 				h.Real.SetReadDeadline(vs.Now().Add(3 * time.Second))
 				if _, err := h.Real.Read(buf); err != nil {
+					readErr = err
 					break
 				}
 			}
@@ -353,6 +355,16 @@ func (c09) Run(c *Case, src *vs.Src) *Result {
 		}
 		if maxFragN > c09BoundDFrags || maxFragB > c09BoundDFrags*(65536+8192+8) {
 			r.Violate("memory", sigp+" memory fragments "+p.Mode+" "+p.Flood, "pending fragment state reached %d buffers / %d bytes", maxFragN, maxFragB)
+		}
+	}
+	if p.Stack == TLCP && p.Mode == "flood" && (p.Flood == "empty-app" || p.Flood == "warning") && realErr == nil && p.N > 16 && peerNote == "" {
+		// stream stack: records that neither advance the handshake nor deliver data are skipped by recursion,
+		// so more than 16 in a row must be refused (on the datagram stack they are skipped in a loop and each
+		// one is consumed: tolerating them costs nothing)
+		if readErr == nil || isTimeout(readErr) || readErr == io.EOF || readErr == io.ErrUnexpectedEOF {
+			r.Violate("flood-tolerated", sigp+" non-advancing-flood-tolerated "+p.Flood, "%d consecutive %s records after the handshake were all tolerated (application Read ended with %v)", p.N, p.Flood, readErr)
+		} else {
+			r.Stat("probe_flood_refused", 1)
 		}
 	}
 	r.Stat("mode_"+p.Mode, 1)
